@@ -133,9 +133,19 @@ func (ix *PointIndex) InsertPolygon(polygon geom.Polygon) error {
 // InsertPoint inserts a Point by its absolute coord
 func (ix *PointIndex) InsertPoint(point geom.Point) error {
 	intPoint := intgeom.FromGeomPoint(point)
-	deepestX := int((intPoint.X() - ix.intExtent.MinX()) / ix.deepestRes)
-	deepestY := int((intPoint.Y() - ix.intExtent.MinY()) / ix.deepestRes)
+	deepestX := int(floorDiv(intPoint.X()-ix.intExtent.MinX(), ix.deepestRes))
+	deepestY := int(floorDiv(intPoint.Y()-ix.intExtent.MinY(), ix.deepestRes))
 	return ix.InsertCoord(deepestX, deepestY)
+}
+
+// floorDiv divides rounding down (instead of towards zero), so that a point just left of or below the extent
+// gets a negative coord (and is rejected) instead of coord 0. d must be positive.
+func floorDiv(n, d int64) int64 {
+	q := n / d
+	if n%d < 0 {
+		q--
+	}
+	return q
 }
 
 type OutsideGridError struct {
